@@ -64,20 +64,22 @@ Opt(level) ==
     [] level = 3 -> <<P("SetModelPass")>> \o MQRetarget \o Sabre \o MQRetarget \o Resynth(TRUE) \o SQRetarget
                     \o GateDeletion(TRUE) \o <<P("LogErrorPass"), P("ApplyPlacement")>>
     [] level = 4 -> <<P("SetModelPass")>> \o SeqPAM \o MQRetarget \o Resynth(TRUE) \o SQRetarget \o GateDeletion(TRUE)
-                    \o <<P("LogErrorPass")>>
+                    \o <<P("LogErrorPass"), P("ApplyPlacement")>>
 \* _circuit_workflow
 CircuitProg(level) == <<P("UnfoldPass"), P("ExtractMeasurements")>> \o Opt(level) \o <<P("RestoreMeasurements")>>
-\* _synthesis_workflow (n = width of the unitary)
+\* _synthesis_workflow (n = width of the unitary): the target is placed on connected physical qudits before it is
+\* synthesised and moved onto the machine at the end
 UnitaryProg(level, n) ==
   LET synth == IF n = 1 THEN <<QSearch>> ELSE IF level < 4 THEN Synth ELSE <<P("PermutationAwareSynthesisPass")>>
-  IN <<P("SetModelPass"), P("SetTargetPass")>> \o synth \o SQRetarget
-     \o (IF level >= 2 THEN Scan ELSE <<P("NOOPPass")>>)
+  IN <<P("SetModelPass"), P("SetTargetPass"), P("GreedyPlacementPass")>> \o synth \o SQRetarget
+     \o (IF level >= 2 THEN Scan ELSE <<P("NOOPPass")>>) \o <<P("ApplyPlacement")>>
 \* _stateprep_workflow / _statemap_workflow
 StateProg(level, n) ==
   LET synth == CASE level \in {1, 2} -> LEAP
                  [] level = 3 -> IF n > 3 THEN LEAP ELSE QSearch
                  [] level = 4 -> P("PermutationAwareSynthesisPass")
-  IN <<P("SetModelPass"), P("SetTargetPass"), synth>> \o (IF level >= 2 THEN Scan ELSE <<P("NOOPPass")>>)
+  IN <<P("SetModelPass"), P("SetTargetPass"), P("GreedyPlacementPass"), synth>> \o SQRetarget
+     \o (IF level >= 2 THEN Scan ELSE <<P("NOOPPass")>>) \o <<P("ApplyPlacement")>>
 Prog(kind, level, n) ==
   CASE kind = "circuit" -> CircuitProg(level)
     [] kind = "unitary" -> UnitaryProg(level, n)
